@@ -646,8 +646,8 @@ package raft
 //@   at call io.Copy assert [IS.chunk-identity] sfIndex[r.snapshot] == X && sfTerm[r.snapshot] == T
 //@   at call io.Copy assert [IS.offset] request.Offset == sfPos[r.snapshot] && sfWriter[r.snapshot] && !sfPublished[r.snapshot] && X > r.lastIncludedIndex && X > r.lastApplied
 //@   at call r.snapshot.Close assert [IS.publish-label] sfIndex[r.snapshot] == X && sfTerm[r.snapshot] == T && request.Done
-//@   at call r.log.Compact assert [IS.compact-after-applied] r.lastApplied >= X && inLog(X) && index == X
-//@   at call r.log.DiscardEntries assert [IS.discard-only-on-mismatch] index == X && term == T
+//@   at call r.log.Compact assert [IS.compact-after-applied] r.lastApplied >= X && inLog(X) && arg0 == X
+//@   at call r.log.DiscardEntries assert [IS.discard-only-on-mismatch] arg0 == X && arg1 == T && !(inLog(X) && Lterm[X] == T)
 //@   at before-assign r.lastApplied assert [IS.applied-monotone] newval >= r.lastApplied
 //@   at before-assign r.commitIndex assert [IS.commit-monotone] newval >= r.commitIndex
 //@   at before-assign r.lastIncludedIndex assert [IS.included-monotone] newval > r.lastIncludedIndex && newval == X
